@@ -252,6 +252,11 @@ macro_rules! impl_sut {
                 let (a, b, c) = <$Q>::into_three_posits(self);
                 (a.to_bits() as u32, b.to_bits() as u32, c.to_bits() as u32)
             }
+            #[cfg(not(feature = "linalg"))]
+            fn matdot(_r: usize, _k: usize, _c: usize, _a: &[u32], _b: &[u32], _la: u8, _lb: u8) -> Vec<u32> {
+                unreachable!("harness: built without the linalg client")
+            }
+            #[cfg(feature = "linalg")]
             fn matdot(r: usize, k: usize, c: usize, a: &[u32], b: &[u32], la: u8, lb: u8) -> Vec<u32> {
                 use nalgebra::{DMatrix, SMatrix};
                 use softposit::QuireDot;
